@@ -61,7 +61,7 @@ RULE = ("function groups eval (evaluate_basis), deriv (evaluate_deriv_basis, bot
         "(binomial law); motions: ALL 48 signed axis permutations for every group on every run (thorough: several bases "
         "each), rotations S.Q from integer quaternions (norm n <= 27, proper and improper) with coordinates k n / 2^s so "
         "both frames are dyadic, translations k/16, identity-rotation translations; bases of 1-4 shells, l cycling 0..4 "
-        "(eri: l <= 2 quick / 3 thorough), K 1-3, M 1-3 (generalized), Cartesian / spherical / mixed, with and without a "
+        "(eri: l <= 2 quick / 3 thorough, exponents 0.15..4, f shells uncontracted), K 1-3, M 1-3 (generalized), Cartesian / spherical / mixed, with and without a "
         "transform C (moved along as C D^T); geometries in general position (no coordinate difference of two centres or of "
         "a point and a centre is zero, in either frame) for >= 2/3 of the cases, the rest with shared centres / points on "
         "centres / axes; PSD dyadic density matrices A A^T; a seeded ~12% of the cases also compares the moved system with "
@@ -74,6 +74,10 @@ ASSUMPTIONS = [
     "signed axis permutations, see Props/C12.v)",
     "generate_transformation is used to build the spherical representation matrices (property C10 verifies it); the "
     "Cartesian component order is recomputed here and compared with the shell object's",
+    "electron repulsion is exercised where the implementation is accurate (exponents 0.15..4, one primitive in f shells, "
+    "tolerance 1e-6 Schwarz as in C04): for contracted tight x diffuse quartets its error against the exact model is up to "
+    "1e-3 of the block in EITHER frame (C04's finding; measured here: (pf|ff), exponents 0.9 / 28, 5.9e-4 on a block of "
+    "1.9) and is not covariant",
     "electrostatic_potential: points are kept at least 1/16 away from every nucleus; thresholds are chosen >= 1e-3 "
     "(relative) away from every point-nucleus distance",
 ]
